@@ -66,6 +66,19 @@ func jstr(s string) *JNode { return &JNode{Kind: JString, S: Str{S: s}} }
 
 // ---------- rendering ----------
 
+// jsonRenderForced is jsonRender with symbolic integers and strings rendered byte by byte even
+// where the harness did not ask for it (the code under test works on the bytes of a document).
+func (in *Interp) jsonRenderForced(n *JNode) ([]*sym.Term, bool) {
+	if b, ok := in.jsonRender(n); ok {
+		return b, true
+	}
+	ri, rj := in.renderInts, in.renderJSON
+	in.renderInts, in.renderJSON = true, true
+	b, ok := in.jsonRender(n)
+	in.renderInts, in.renderJSON = ri, rj
+	return b, ok
+}
+
 // jsonRender returns the exact compact text of n when it can be determined with a concrete
 // length (all leaves concrete, or symbolic leaves whose rendering has a fixed length).
 func (in *Interp) jsonRender(n *JNode) ([]*sym.Term, bool) {
